@@ -7,6 +7,8 @@ import RbV.Model.Bndm
 import RbV.Model.Bom
 import RbV.Lemmas.BomOracle
 import RbV.Thm.GenSrcKmpLps
+import RbV.Thm.GenSrcShiftAndMasks
+import RbV.Thm.GenSrcHorspoolNew
 /-!
 # C08 — exact matchers return exactly all occurrences
 
@@ -161,5 +163,55 @@ theorem kmp_lps_source_is_border_table (p : List Nat) (hp : 0 < p.length) (h64 :
   ⟨Kmp.lps p, GenSrcKmpLps.lps_eq_model p h64, (Kmp.lps_spec p hp).2, (Kmp.lps_spec p hp).1⟩
 
 example : Gen.SrcKmpLps.lps [1, 2, 1, 2, 3] = Rs.Res.ok [0, 0, 1, 2, 0] := by decide
+
+/-- **`pub fn masks` of `shift_and.rs`, as written, is the mirror model `ShiftAnd.masksLoop`**, for every pattern of
+bytes (no length bound: `masks` itself never panics, the running bit is shifted out after the 64th symbol): the returned
+array is the model's mask function tabulated over 0..255, the returned accept mask is the model's. -/
+theorem shiftAnd_masks_source_eq_model (p : List Nat) (hb : ∀ c ∈ p, c < 256) :
+    Gen.SrcShiftAndMasks.masks p
+      = Rs.Res.ok ((List.range 256).map (ShiftAnd.masksLoop p).masks, (ShiftAnd.masksLoop p).accept) :=
+  GenSrcShiftAndMasks.masks_eq_model p hb
+
+/-- generated code = specification: for a pattern of at most 64 bytes the translated `masks` returns, without panic, a
+256-entry table whose entry `c` has bit `j` set exactly when `p[j] = c`, and the accept mask `2^(m-1)`. -/
+theorem shiftAnd_masks_source_spec (p : List Nat) (hb : ∀ c ∈ p, c < 256) (hm : p.length ≤ 64) :
+    ∃ tab acc, Gen.SrcShiftAndMasks.masks p = Rs.Res.ok (tab, acc) ∧ tab.length = 256
+      ∧ (∀ c j, c < 256 → (tab.getD c 0).testBit j = (p[j]? == some c))
+      ∧ (0 < p.length → acc = 2 ^ (p.length - 1)) := by
+  refine ⟨_, _, GenSrcShiftAndMasks.masks_eq_model p hb, GenSrc.tab_length _ _, ?_, ?_⟩
+  · intro c j hc
+    rw [List.getD_eq_getElem?_getD, GenSrc.tab_get _ _ _ hc]
+    exact ShiftAnd.masks_testBit p hm c j
+  · intro hp
+    exact ShiftAnd.accept_eq p hm hp
+
+example := shiftAnd_masks_source_spec [1, 2, 1] (by decide) (by decide)
+example : (ShiftAnd.masksLoop [1, 2, 1]).masks 1 = 5 ∧ (ShiftAnd.masksLoop [1, 2, 1]).accept = 4 := by decide
+
+/-- **`Horspool::new` of `horspool.rs`, as written, builds the mirror model's shift table**: for every non-empty pattern of
+bytes the translated constructor returns, without panic (`m - 1`, `m - 1 - j` never underflow, `pattern[..m - 1]` and
+`shift[a as usize]` stay in bounds), the triple `(m, shift, pattern)` with `shift` = `Horspool.shiftTab p` tabulated over
+0..255. -/
+theorem horspool_new_source_eq_model (p : List Nat) (hp : 0 < p.length) (hb : ∀ c ∈ p, c < 256) :
+    Gen.SrcHorspoolNew.new p = Rs.Res.ok (p.length, (List.range 256).map (Horspool.shiftTab p), p) :=
+  GenSrcHorspoolNew.new_eq_model p hp hb
+
+/-- generated code = specification: every entry of the table built by the translated constructor is a safe shift — between
+1 and m, and no occurrence of the symbol in `p[0..m-1)` lies strictly within that distance of the window end. -/
+theorem horspool_new_source_spec (p : List Nat) (hp : 0 < p.length) (hb : ∀ c ∈ p, c < 256) :
+    ∃ sh, Gen.SrcHorspoolNew.new p = Rs.Res.ok (p.length, sh, p) ∧ sh.length = 256 ∧
+      ∀ c, c < 256 → 1 ≤ sh.getD c 0 ∧ sh.getD c 0 ≤ p.length ∧
+        ∀ d, 0 < d → d < sh.getD c 0 → p[p.length - 1 - d]? ≠ some c := by
+  refine ⟨_, GenSrcHorspoolNew.new_eq_model p hp hb, GenSrc.tab_length _ _, ?_⟩
+  intro c hc
+  rw [List.getD_eq_getElem?_getD, GenSrc.tab_get _ _ _ hc]
+  exact ⟨(Horspool.shift_bounds p hp c).1, (Horspool.shift_bounds p hp c).2, fun d hd hlt => Horspool.shift_safe p hp c d hd hlt⟩
+
+/-- the empty pattern is refused: `m - 1` underflows and the translated constructor panics (the harness never sends it) -/
+theorem horspool_new_source_empty_panics : Gen.SrcHorspoolNew.new [] = Rs.Res.panic :=
+  GenSrcHorspoolNew.new_nil_panics
+
+example := horspool_new_source_spec [1, 2, 1] (by decide) (by decide)
+example : Horspool.shiftTab [1, 1, 3, 2] 1 = 2 ∧ Horspool.shiftTab [1, 1, 3, 2] 2 = 4 := by decide
 
 end RbV.Thm.C08
